@@ -209,6 +209,9 @@ def c15(ck):
     sc.append(("idle1_max0_conn", 1, None, 1, 0, ["300:100:" + ok_req], {"ret": "Timeout", "not_before": 1250, "not_after": 3200, "complete": 1}))
     # a handled signal reaches the thread blocked in listen()'s wait: not a timeout - the idle period still counts from the
     # last new connection (here one that arrives after the signal)
+    sc.append(("idle1_signal_nobody", 1, None, 1, 4, ["signal:300"], {"ret": "Timeout", "not_before": 950, "not_after": 2300}))
+    sc.append(("stop_signal_nobody", 0, 1000, 1, 4, ["signal:300"], {"ret": "ok", "not_before": 990, "not_after": 1700}))
+    sc.append(("idle2_three_signals", 2, None, 1, 4, ["signal:300", "signal:900", "signal:1500"], {"ret": "Timeout", "not_before": 1950, "not_after": 3400}))
     sc.append(("idle2_signal_then_conn", 2, None, 1, 4, ["signal:300", "800:100:" + ok_req], {"ret": "Timeout", "not_before": 2750, "not_after": 5200, "complete": 1}))
     sc.append(("stop_idle1_signals", 1, 60000, 1, 4, ["signal:150", "signal:250", "signal:350", "600:100:" + ok_req],
                {"ret": "Timeout", "not_before": 1550, "not_after": 3400, "complete": 1}))
